@@ -5,6 +5,9 @@ package rt
 
 import "unsafe"
 
+// maxAlloc mirrors the runtime constant used by NewChan's size check.
+const maxAlloc = 1 << 48
+
 func AllocU(size uintptr) unsafe.Pointer {
 	b := make([]byte, size)
 	return unsafe.Pointer(&b[0])
